@@ -133,6 +133,10 @@ func junkify(rec *world.Recording, L []storage.Message, foreignReinit bool) []st
 			out = append(out, storage.Message{DkgRoundID: rec.Round, Event: "event_dkg_deal_confirm_received", Data: world.MustJSON(sc)})
 			n0 := rec.W.Nodes[0].Name
 			out = append(out, storage.Message{DkgRoundID: rec.Round, Event: "event_dkg_deal_confirm_received", Data: world.MustJSON(sc), SenderAddr: n0, RecipientAddr: n0})
+			// ... and one that looks exactly like participant 0's own self-confirmation, dated ten
+			// years ahead
+			sc0 := requests.DKGProposalDealConfirmationRequest{ParticipantId: 0, Deal: []byte("self-confirm"), CreatedAt: world.T0.AddDate(10, 0, 0)}
+			out = append(out, storage.Message{DkgRoundID: rec.Round, Event: "event_dkg_deal_confirm_received", Data: world.MustJSON(sc0), SenderAddr: n0, RecipientAddr: n0})
 		}
 		if !foreignReinit && i == 1 {
 			// (C20's dump) a forged decline in the last participant's name, signed with another
